@@ -42,6 +42,14 @@ CHECKS = {
    text="For seeded base histories ending in infeasible_elimination, pruned composition or tree arithmetic the LP calls of the operation are counted through the hook, then the operation is repeated under every fault plan: each single call position x {Error, Unbounded, perturbed witness, far-off witness}, all calls faulted (thorough: pairs and seeded subsets). Per plan: no panic, well-formed tree, cached witnesses/verdicts sound, and z3 decides for every piece of the un-pruned reference (tightened by tau) that the faulted result does not differ in definedness or value.",
    note=T_NOTE + "; fault model = the cfg(affinitree_verif) hook overriding the answer of Polytope::solve_linprog at chosen call indices",
    technique="exhaustive enumeration of LP fault positions (up to the subset bound) with an SMT (z3 QF_LRA) function-preservation oracle over all inputs"),
+ "C12": dict(engine="K", cat="model_checking", ref="5 C12, 3.1",
+   text="Kani/CBMC model-checks the compiled arena tree (Tree<u8,K>) with one generated harness per concrete shape (every labelled tree with <=3 nodes, K=2 quick / K in {2,3} thorough, plus an index-reuse layout) and operation: add_child_node, update_node and merge_child_with_parent with symbolic arguments (valid and invalid indices, every label, any payload), try_remove_child / remove_all_descendants for every concrete argument that removes a leaf or must fail. After the call every observable of every slot (parent, each child link, leaf flag, value, contains, len, root) is asserted against the post-state of a reference model; Err must leave all of them unchanged. Counterexamples are re-run natively on the real build.",
+   note="bounded: <=3 nodes, one operation after the pre-state, unwind 6 with unwinding assertions; slab is replaced by a heap-free model of its API (stub, listed in the evidence; failures are replayed on the real slab); removals of subtrees with descendants are OUTSIDE the bound (no verdict within 10 min even with concrete arguments)",
+   technique="bounded model checking of the compiled code with Kani/CBMC (SAT), one generated harness per concrete shape, symbolic operation arguments"),
+ "C13": dict(engine="K", cat="model_checking", ref="5 C13, 3.1",
+   text="Kani/CBMC model-checks the compiled DfsPre, DfsEdge and Bfs traversals on concrete shapes (3-node chain, siblings, index-reuse layout; thorough: all shapes <=3 nodes for K=2 and six K=3 shapes): the start node is symbolic over all nodes and a symbolic skip_subtree decision follows the first item; the first two returned items (index, depth, remaining-sibling counter / src, label, dest), None when exhausted, and size_hint before and after every call must equal constants derived from the shape by the generator. Counterexamples are re-run natively on the real build.",
+   note="bounded: the two leading items of each traversal (DfsEdge: the first; further calls do not finish / exhaust memory), shapes with <=3 nodes; the loop-based metrics (num_nodes, depth, path_to_node, index iterators, depth_stats) gave no verdict and are OUTSIDE the claim; slab replaced by a heap-free model (stub)",
+   technique="bounded model checking of the compiled code with Kani/CBMC (SAT), symbolic start node and skip decisions on generated concrete shapes"),
  "C14": dict(engine="L", cat="model_checking", ref="5 C14, 3.2",
    text="The real generic Polytope functions (intersection, intersection_n, translate, apply_pre, apply_post, rotate, hypercube, hyperrectangle/axis_bounds with every pattern of infinite bounds, unbounded, empty, cross_polytope, from_normal, simplex, distance/distance_raw, contains) are compiled at a symbolic-real scalar and executed with every matrix entry, bias, point and argument symbolic (rows/dims <=3, <=4 thorough); every comparison in the code is a fork decided by z3 and the set-exactness law is asserted on every feasible path. apply_post/rotate are stated in pre-image form with a symbolic inverse and in image form with concrete exactly-invertible matrices; simplex through its documented vertices and recession cone.",
    note="exact real arithmetic stands in for f64 (counterexamples are replayed through the f64 instantiation); bounded by the dimension tuples listed in the evidence; z3 (QF_NRA) trusted; laws with the built-in 1e-8 containment tolerance are stated with the same tolerance on both sides",
